@@ -15,7 +15,7 @@ PROPERTY_RULES = {
     "C10": ["r_c2", "r_c1", "r_e1"],
     "C11": ["r_c2", "r_c1", "r_a6", "r_c5", "r_c4", "r_e1"],
     "C12": ["r_c4", "r_e1"],
-    "C13": ["r_a6", "r_e1"],
+    "C13": ["r_e4", "r_a6", "r_e1"],
     "C14": ["r_d1"],
     "C15": ["r_d2", "r_d3"],
     "C16": ["r_e1"],
@@ -47,8 +47,8 @@ CLAUSES = {
     "C02": "structural preconditions of the unsafe code: every safe caller establishes the stated precondition of each unsafe helper in release code; "
            "raw slices have an approved (ptr,len) shape; raw writes are bounded by the real destination length; no wrap-around feeds an extent; "
            "refcount overflow aborts",
-    "C13": "argument checks of safe methods dominate the unchecked operations they protect in release builds (debug-only asserts are not relied on); "
-           "overflowing requests cannot wrap silently",
+    "C13": "in every safe &mut-self method with integer/range/slice arguments no state write can reach an argument-dependent panic (panic strictly before "
+           "mutation); argument checks dominate the unchecked operations they protect in release builds; overflowing requests cannot wrap silently",
     "C09": "Chain touches its second half only on paths where the first is exhausted or fully accounted for (incl. chunks_vectored); "
            "Take truncates by min(inner, limit) and pairs every inner advance with limit -= same operand",
     "C12": "Take/Limit: remaining = min(inner, limit), chunk truncated by the same min, guarded paired bookkeeping; Chain order for both traits; "
@@ -81,7 +81,7 @@ TECHNIQUE = {
     "C08": "return-value flow of the is_unique slot functions cross-checked against the take-over paths of into_mut (path summaries) + dominating-guard analysis",
     "C03": "path-sensitive linear-token accounting over MIR (acyclic path enumeration with constant folding and tag-feasibility pruning, interprocedural event summaries)",
     "C02": "precondition extraction from debug_assert!s of unsafe helpers + dominating-guard implication at every safe call site; shape rules for raw slices/writes; arithmetic taint",
-    "C13": "dominating-guard implication for unsafe-helper preconditions at safe call sites + arithmetic taint analysis",
+    "C13": "reachability from state-write sites to argument-dependent panic sites over MIR CFGs with interprocedural summaries; dominating-guard implication; arithmetic taint",
     "C09": "path rule over MIR CFG: every entry->call path to a call on Chain.b carries an a-exhausted witness; shape rules for Take",
     "C12": "shape + path rules over MIR for the adapters' arithmetic (min, truncation, paired decrement, Chain order, Reader/Writer transfer)",
     "C05": "role classification of all atomic sites + dominance of free/take-over events by the deciding RMW edge (MIR CFG dominators, interprocedural over call sites)",
